@@ -12,6 +12,13 @@ Translator plugin for C02 (control flow / command search): the parts of the exec
   errorNotFoundStatus     `Error::exit_status`: the constant of `NotFound` (the `Unusable(_)` arm must
                           delegate to the cause)                          yash-env/src/semantics/command/search.rs
   availabilityVariants    `pub enum Availability { … }`                                 (same file)
+  divertVariants          `pub enum Divert { … }` in declaration order; the enum must derive `PartialOrd` and
+                          `Ord` (the order `Divert::max` uses is the declaration order) and must not have a
+                          hand-written `impl Ord`/`impl PartialOrd`                     yash-env/src/semantics.rs
+  reportStatus            the `ExitStatus::NAME` each of `report_error`, `report_failure`, `report_simple_failure`,
+                          `report_simple_error` passes on                yash-builtin/src/common/report.rs
+  reportDivert            `prepare_report_message_and_divert`: the two values of
+                          `let divert = if is_special_builtin { … } else { … }`        (same file)
 
 Patterns are read by *name*: `Frame::Loop`, `Self::Loop`, `Loop`, payload spellings `(_)`, `(..)`, `{ .. }`,
 alternatives in any order and a `_` arm are all the same to the extractor; bodies are read as `true`/`false`
@@ -27,6 +34,8 @@ SEM = "yash-env/src/semantics.rs"
 BUILTIN_RS = "yash-env/src/builtin.rs"
 STACK = "yash-env/src/stack.rs"
 SEARCH = "yash-env/src/semantics/command/search.rs"
+
+REPORT = "yash-builtin/src/common/report.rs"
 
 NEEDED_STATUS = ["SUCCESS", "FAILURE", "ERROR", "NOEXEC", "NOT_FOUND"]
 
@@ -280,8 +289,61 @@ def search_statuses(h, statuses):
     return utable, not_found, avail
 
 
+def divert_variants(h):
+    src = h.read(SEM)
+    m = re.search(r"((?:#\s*\[[^\]]*\]\s*)+)pub\s+enum\s+Divert\b", strip_comments(src))
+    if not m:
+        h.fail(f"exec: anchor not found: attributes + pub enum Divert in {SEM}")
+    derives = set()
+    for d in re.findall(r"derive\s*\(([^)]*)\)", m.group(1)):
+        derives |= {x.strip().split("::")[-1] for x in d.split(",") if x.strip()}
+    for need in ("PartialOrd", "Ord", "PartialEq", "Eq"):
+        if need not in derives:
+            h.fail(f"exec: enum Divert in {SEM} does not derive {need} (derives {sorted(derives)}): the order "
+                   "used by `Divert::max` is no longer the declaration order")
+    if re.search(r"impl\s+(?:PartialOrd|Ord)\s+for\s+Divert\b", strip_comments(src)):
+        h.fail(f"exec: {SEM} has a hand-written impl of Ord/PartialOrd for Divert")
+    return enum_variants(h, src, "Divert", SEM)
+
+
+def report_tables(h, statuses):
+    src = strip_comments(h.read(REPORT))
+    names = [n for n, _ in statuses]
+    rows = []
+    for fn in ("report_error", "report_failure", "report_simple_failure", "report_simple_error"):
+        body = h.item_body(src, r"pub\s+(?:async\s+)?fn\s+" + fn + r"\b[^{;]*(?=\{)", f"body of {fn} in {REPORT}")
+        consts = re.findall(r"\bExitStatus\s*::\s*(\w+)", body)
+        lits = re.findall(r"\bExitStatus\s*\(\s*(\d+)\s*\)", body)
+        if lits and not consts:
+            byval = {v: n for n, v in statuses}
+            consts = [byval.get(int(x)) for x in lits]
+        if len(consts) != 1 or consts[0] not in names:
+            h.fail(f"exec: {fn} in {REPORT}: expected exactly one ExitStatus constant of {names} in its body, "
+                   f"found {consts}: `{' '.join(body.split())[:80]}`")
+        rows.append((fn, consts[0]))
+    body = h.item_body(src, r"pub\s+fn\s+prepare_report_message_and_divert\b[^{;]*(?=\{)",
+                       f"body of prepare_report_message_and_divert in {REPORT}")
+    m = re.search(r"let\s+divert\s*=\s*if\s+(!?)\s*is_special_builtin\s*\{([^{}]*)\}\s*else\s*\{([^{}]*)\}\s*;", body)
+    if not m:
+        h.fail(f"exec: prepare_report_message_and_divert in {REPORT}: cannot find "
+               "`let divert = if is_special_builtin { … } else { … };`")
+
+    def norm(t):
+        t = "".join(t.split())
+        t = re.sub(r"\b(?:\w+::)+", "", t)          # drop paths: ControlFlow::Break -> Break, Divert::Interrupt -> Interrupt
+        if t not in ("Break(Interrupt(None))", "Continue(())"):
+            h.fail(f"exec: prepare_report_message_and_divert in {REPORT}: cannot classify the divert `{t[:60]}`")
+        return t
+    a, b = norm(m.group(2)), norm(m.group(3))
+    if m.group(1) == "!":
+        a, b = b, a
+    return rows, (a, b)
+
+
 def extract(h):
     statuses = exit_statuses(h)
+    diverts = divert_variants(h)
+    report_rows, report_divert = report_tables(h, statuses)
     types = enum_variants(h, h.read(BUILTIN_RS), "Type", BUILTIN_RS)
     special = posix_special_names(h)
     frames = enum_variants(h, h.read(STACK), "Frame", STACK)
@@ -309,7 +371,16 @@ def extract(h):
     out += (f"/-- `Error::exit_status` ({SEARCH}): the constant of `NotFound` (`Unusable(cause)` delegates to the cause) -/\n"
             f"def errorNotFoundStatus : String := {h.lean_str(not_found)}\n\n")
     out += (f"/-- the variants of `enum Availability` ({SEARCH}) -/\n"
-            "def availabilityVariants : List String := [" + ", ".join(h.lean_str(v) for v in avail) + "]\n")
+            "def availabilityVariants : List String := [" + ", ".join(h.lean_str(v) for v in avail) + "]\n\n")
+    out += (f"/-- the variants of `enum Divert` ({SEM}) in declaration order, which is the order of the derived "
+            "`Ord` (checked: PartialOrd and Ord are derived, not written by hand) -/\n"
+            "def divertVariants : List String := [" + ", ".join(h.lean_str(v) for v in diverts) + "]\n\n")
+    out += (f"/-- the ExitStatus constant each report function of {REPORT} passes on -/\n"
+            "def reportStatus : List (String × String) := ["
+            + ", ".join(f"({h.lean_str(f)}, {h.lean_str(c)})" for f, c in report_rows) + "]\n\n")
+    out += (f"/-- `prepare_report_message_and_divert` ({REPORT}): the divert when the current built-in is special, "
+            "and otherwise -/\n"
+            f"def reportDivert : String × String := ({h.lean_str(report_divert[0])}, {h.lean_str(report_divert[1])})\n")
     h.write("ExecTables", out)
 
 
